@@ -14,7 +14,6 @@
 package main
 
 import (
-	"bytes"
 	"errors"
 	"io"
 	"log"
@@ -31,86 +30,6 @@ import (
 )
 
 // ---------------------------------------------------------------- goroutine dumps
-
-type ginfo struct {
-	id     int
-	state  string
-	text   string // the frames
-	parent int    // "created by ... in goroutine N"
-}
-
-var dumpBuf = make([]byte, 1<<20)
-
-func dump() map[int]*ginfo {
-	for {
-		n := runtime.Stack(dumpBuf, true)
-		if n < len(dumpBuf) {
-			return parseDump(dumpBuf[:n])
-		}
-		dumpBuf = make([]byte, 2*len(dumpBuf))
-	}
-}
-
-func parseDump(b []byte) map[int]*ginfo {
-	res := map[int]*ginfo{}
-	for _, blk := range bytes.Split(b, []byte("\n\n")) {
-		s := string(blk)
-		if !strings.HasPrefix(s, "goroutine ") {
-			continue
-		}
-		nl := strings.IndexByte(s, '\n')
-		if nl < 0 {
-			nl = len(s)
-		}
-		head := s[:nl]
-		sp := strings.IndexByte(head[10:], ' ')
-		if sp < 0 {
-			continue
-		}
-		id, err := strconv.Atoi(head[10 : 10+sp])
-		if err != nil {
-			continue
-		}
-		lb, rb := strings.IndexByte(head, '['), strings.LastIndexByte(head, ']')
-		state := ""
-		if lb >= 0 && rb > lb {
-			state = head[lb+1 : rb]
-			if c := strings.IndexByte(state, ','); c >= 0 {
-				state = state[:c]
-			}
-		}
-		g := &ginfo{id: id, state: state, text: s[nl:]}
-		if i := strings.LastIndex(s, " in goroutine "); i >= 0 {
-			rest := s[i+14:]
-			if e := strings.IndexByte(rest, '\n'); e >= 0 {
-				rest = rest[:e]
-			}
-			g.parent, _ = strconv.Atoi(strings.TrimSpace(rest))
-		}
-		res[id] = g
-	}
-	return res
-}
-
-func goid() int {
-	var b [64]byte
-	n := runtime.Stack(b[:], false)
-	s := string(b[:n])
-	s = strings.TrimPrefix(s, "goroutine ")
-	if i := strings.IndexByte(s, ' '); i >= 0 {
-		id, _ := strconv.Atoi(s[:i])
-		return id
-	}
-	return 0
-}
-
-func parked(state string) bool {
-	switch state {
-	case "chan receive", "chan send", "select", "semacquire", "sync.WaitGroup.Wait", "sync.Mutex.Lock", "sync.Cond.Wait":
-		return true
-	}
-	return false
-}
 
 const (
 	fStart    = "sched.(*ThreadPoolExecutor).start("
@@ -200,7 +119,7 @@ func (s *scen) task(t int) sched.Runnable {
 
 // execute runs Execute(task t) on the calling goroutine and records how it ended.
 func (s *scen) execute(c *call, t int) {
-	atomic.StoreInt32(&c.gid, int32(goid()))
+	atomic.StoreInt32(&c.gid, int32(Goid()))
 	var err error
 	r := s.task(t)
 	p, _ := Catch(func() { err = s.ex.Execute(r) })
@@ -215,7 +134,7 @@ func (s *scen) execute(c *call, t int) {
 }
 
 func (s *scen) shutdown(c *call) {
-	atomic.StoreInt32(&c.gid, int32(goid()))
+	atomic.StoreInt32(&c.gid, int32(Goid()))
 	p, _ := Catch(func() { s.ex.Shutdown() })
 	st := int32(1)
 	if p {
@@ -229,7 +148,7 @@ func (s *scen) shutdown(c *call) {
 // (unreturned Execute / Shutdown callers, workers) is parked.  statuses: per Execute call.
 func (s *scen) look() (quiescent bool, statuses []int, alive int, shuts []int) {
 	seq0 := atomic.LoadInt64(&s.seq)
-	d := dump()
+	d := GDump()
 	quiescent = true
 	callg := map[int]bool{}
 	for _, c := range s.calls {
@@ -246,12 +165,12 @@ func (s *scen) look() (quiescent bool, statuses []int, alive int, shuts []int) {
 		switch {
 		case gid == 0 && len(s.loops) > 0: // not begun; its submitter is tracked below
 			statuses = append(statuses, 5)
-		case gid == 0 || g == nil || !parked(g.state):
+		case gid == 0 || g == nil || !Parked(g.State):
 			quiescent = false
 			statuses = append(statuses, 5)
-		case g.state == "chan receive" && strings.Contains(g.text, fStart):
+		case g.State == "chan receive" && strings.Contains(g.Text, fStart):
 			statuses = append(statuses, 4)
-		case g.state == "chan send" && strings.Contains(g.text, fExecute):
+		case g.State == "chan send" && strings.Contains(g.Text, fExecute):
 			statuses = append(statuses, 0)
 		default:
 			quiescent = false
@@ -267,22 +186,22 @@ func (s *scen) look() (quiescent bool, statuses []int, alive int, shuts []int) {
 		}
 		shuts = append(shuts, 0)
 		g := d[gid]
-		if gid == 0 || g == nil || !parked(g.state) || !strings.Contains(g.text, fShutdown) {
+		if gid == 0 || g == nil || !Parked(g.State) || !strings.Contains(g.Text, fShutdown) {
 			quiescent = false
 		}
 	}
 	for _, c := range s.loops {
 		if atomic.LoadInt32(&c.status) == 0 {
 			gid := int(atomic.LoadInt32(&c.gid))
-			if g := d[gid]; gid == 0 || g == nil || !parked(g.state) {
+			if g := d[gid]; gid == 0 || g == nil || !Parked(g.State) {
 				quiescent = false
 			}
 		}
 	}
 	for _, g := range d {
-		if callg[g.parent] && strings.Contains(g.text, fWorker) {
+		if callg[g.Parent] && strings.Contains(g.Text, fWorker) {
 			alive++
-			if !parked(g.state) {
+			if !Parked(g.State) {
 				quiescent = false
 			}
 		}
@@ -406,7 +325,7 @@ func runConc(in Sx) Sx {
 		lp := &call{}
 		s.loops = append(s.loops, lp)
 		go func(g int) {
-			atomic.StoreInt32(&lp.gid, int32(goid()))
+			atomic.StoreInt32(&lp.gid, int32(Goid()))
 			barrier.Wait()
 			for i := 0; i < per; i++ {
 				t := g*per + i
